@@ -42,6 +42,12 @@ func c05Pair(c *Ctx, a, b algoCase, what string, r *RNG, dropStart, dropPos bool
 		rep.Disagreement(Disagreement{Kind: "spec", Name: "no_crash", Input: algoPair{a, b, what}, Impl: pa + "|" + pb, Expect: "answers"})
 		return
 	}
+	if what == "repr" { // the trimmed length (a sort key) must not depend on the representation either
+		ca, cb := mkChars(a.Text, a.Bytes), mkChars(b.Text, b.Bytes)
+		if la, lb := ca.TrimLength(), cb.TrimLength(); la != lb {
+			rep.Disagreement(Disagreement{Kind: "spec", Name: "purity:repr(trim length)", Input: algoPair{a, b, what}, Impl: fmt.Sprint(la, " vs ", lb), Expect: "equal trimmed lengths"})
+		}
+	}
 	if projAns(ra, dropStart, dropPos) != projAns(rb, dropStart, dropPos) {
 		known := ""
 		// K1: V2 Start without positions is the first occurrence of pat[0] in the window, with positions the first matched position
@@ -117,6 +123,13 @@ func runC05(c *Ctx) {
 				if !isASCII(a.Text) {
 					a.Text = genText(r, len(a.Text), true)
 					a.Pat = genPat(r, a.Text, max(len(a.Pat), 1))
+					finishCase(r, &a)
+				}
+				if r.Chance(1, 3) {
+					for k := r.Intn(3); k >= 0; k-- {
+						a.Text = append([]int{Pick(r, []int{' ', '\t', '\v', '\f', '\r', '\n'})}, a.Text...)
+						a.Text = append(a.Text, Pick(r, []int{' ', '\t', '\v', '\f', '\r', '\n'}))
+					}
 					finishCase(r, &a)
 				}
 				a.Bytes = true
